@@ -743,6 +743,33 @@ fn requests_for(fi: &FontInfo, tier: Tier) -> Vec<Planned> {
             resubset: true,
         });
     }
+    // gvar offset-format boundary: when the font has more than 0x1FFFE bytes of gvar data the subset's
+    // short/long offset decision is at stake; every gid prefix 0..=j and every gid suffix j..=last is
+    // requested under the flags that change numbering or the kept data
+    let gvar_len = fi
+        .font()
+        .table_directory
+        .table_records()
+        .iter()
+        .find(|r| r.tag() == Tag::new(b"gvar"))
+        .map(|r| r.length())
+        .unwrap_or(0);
+    if gvar_len > 0x1FFFE && fi.num_glyphs <= 4096 {
+        for j in 0..fi.num_glyphs {
+            for r in [
+                Request { gids: (0..=j).collect(), unicodes: vec![] },
+                Request { gids: (j..fi.num_glyphs).collect(), unicodes: vec![] },
+            ] {
+                if seen.insert(r.clone()) {
+                    out.push(Planned {
+                        req: r,
+                        flags: vec![0, F_RETAIN_GIDS, F_NOTDEF_OUTLINE],
+                        resubset: true,
+                    });
+                }
+            }
+        }
+    }
     // the singles layer: EVERY glyph id alone and EVERY mapped character alone (not just the boundary
     // set) — default flags in quick; {default, RETAIN_GIDS, all five} and re-subsetting in thorough
     if !fi.huge_cmap {
@@ -1533,9 +1560,79 @@ fn load_corpus(tier: Tier) -> Vec<FontInfo> {
             jobs.push(("derived:Roboto-Regular.abc.ttf+cmap14".to_string(), b, 0));
         }
     }
+    // No corpus font has more than 128 KiB of gvar data (the largest has 84 832 bytes), so the long/short
+    // decision for gvar offsets is never exercised by the corpus. One derived font replaces the gvar of
+    // hvar_with_truncated_adv_index_map.ttf (24 glyphs, 1 axis) by a built one in which glyphs 0..=11
+    // carry no variation data and glyphs 12..=23 about 16 KiB each.
+    if let Some((_, base, _)) = jobs
+        .iter()
+        .find(|j| j.0.ends_with("hvar_with_truncated_adv_index_map.ttf"))
+    {
+        if let Some(b) = with_big_gvar(base) {
+            jobs.push(("derived:hvar_with_truncated_adv_index_map.ttf+big-gvar".to_string(), b, 0));
+        }
+    }
     jobs.into_par_iter()
         .filter_map(|(n, b, i)| load_font(n, b, i, tier))
         .collect()
+}
+
+/// Copy of a one-axis variable font whose gvar is rebuilt with write-fonts: the lower half of the glyph
+/// ids has no variation data, every glyph of the upper half has as many tuples of word-sized deltas as make the table exceed 200 KiB.
+fn with_big_gvar(bytes: &[u8]) -> Option<Vec<u8>> {
+    use write_fonts::tables::gvar::{GlyphDelta, GlyphDeltas, GlyphVariations, Gvar, Tent};
+    let font = FontRef::new(bytes).ok()?;
+    let axis_count = font.fvar().ok()?.axis_count();
+    if axis_count != 1 {
+        return None;
+    }
+    let n = font.maxp().ok()?.num_glyphs() as u32;
+    let loca = font.loca(None).ok()?;
+    let glyf = font.glyf().ok()?;
+    // the tuple count per glyph is doubled until the table exceeds 200 KiB (the packed size depends on
+    // the run-length encoding write-fonts chooses)
+    let mut mult = 1usize;
+    let gvar = loop {
+        let mut vars = vec![];
+        for g in 0..n {
+            let points = match loca.get_glyf(GlyphId::new(g), &glyf).ok()? {
+                Some(Glyph::Simple(sg)) => sg.num_points(),
+                Some(Glyph::Composite(c)) => c.components().count(),
+                None => 0,
+            };
+            let mut tuples = vec![];
+            if g >= n / 2 && points > 0 {
+                let count = (32 * mult).min(4000);
+                for t in 0..count {
+                    let peak = F2Dot14::from_f32(if t % 2 == 0 { 1.0 } else { -1.0 });
+                    let lo = F2Dot14::from_f32(if t % 2 == 0 { (t % 7) as f32 / 16.0 } else { -1.0 });
+                    let hi = F2Dot14::from_f32(if t % 2 == 0 { 1.0 } else { -((t % 7) as f32) / 16.0 });
+                    let tent = Tent::new(peak, Some((lo, hi)));
+                    let sign: i16 = if t % 4 < 2 { 1 } else { -1 };
+                    let mut deltas: Vec<GlyphDelta> = (0..points)
+                        .map(|p| {
+                            let v = sign * (200 + ((p * 7 + t) % 50) as i16);
+                            GlyphDelta::required(v, -v)
+                        })
+                        .collect();
+                    // phantom points: no delta (advance and side bearing stay with hmtx/HVAR)
+                    deltas.extend((0..4).map(|_| GlyphDelta::required(0, 0)));
+                    tuples.push(GlyphDeltas::new(vec![tent], deltas));
+                }
+            }
+            vars.push(GlyphVariations::new(GlyphId::new(g), tuples));
+        }
+        let gvar = Gvar::new(vars, axis_count).ok()?;
+        let size = write_fonts::dump_table(&gvar).ok()?.len();
+        if size > 200 * 1024 || mult >= 128 {
+            break gvar;
+        }
+        mult *= 2;
+    };
+    let mut fb = write_fonts::FontBuilder::new();
+    fb.add_table(&gvar).ok()?;
+    fb.copy_missing_tables(font);
+    Some(fb.build())
 }
 
 /// Copy of a font whose cmap gains a (0,5) format 14 subtable: U+FE00: 'a' default, 'b' → glyph 3;
